@@ -49,6 +49,7 @@ def _ok_payload(s):
     inner = s[3:-1]
     alts = _split_alts(inner[4:-1]) if inner.startswith("phi(") and inner.endswith(")") else [inner]
     oks = []
+    opaque = []
     for a in alts:
         m = re.match(r"^(?:Result::Ok|Option::Some|ControlFlow::Continue)\((.*)\)$", a)
         if m:
@@ -56,7 +57,13 @@ def _ok_payload(s):
         elif a.startswith("err(") or a.startswith("Result::Err(") or a == "Option::None()":
             continue
         else:
-            return s
+            opaque.append(a)
+    if opaque:
+        # `x.and_then(|n| lookup(n))` lowered: the joined value is `lookup(..)` itself on one side and a None / Err built
+        # on the other - its success payload is the payload of that one call
+        if len(opaque) == 1 and not oks and len(alts) > 1 and not opaque[0].startswith("phi("):
+            return "ok(%s)" % opaque[0]
+        return s
     return oks[0] if len(oks) == 1 else s
 
 
@@ -457,6 +464,12 @@ class Guards:
                 for (val, rk) in reach_k:
                     if val not in can and val != "otherwise":
                         out.append("%s is not %s" % (inner, names.get(val, "#" + val)))
+        # `if !seen.insert(x) { refuse }`: insert answered true, so x was not in the set before - the same fact as a
+        # `contains` test that answered false (and the other way round)
+        for a in list(out):
+            m_ = re.match(r"^(!?)\((.*)::insert\((.*)\)\)$", a)
+            if m_ and ("HashSet" in m_.group(2) or "<T, S, A>" in m_.group(2) or "BTreeSet" in m_.group(2) or "hash::set" in m_.group(2)):
+                out.append("%s(%s::contains(%s))" % ("!" if m_.group(1) == "" else "", m_.group(2), m_.group(3)))
         # x > max(a, b) implies x > a and x > b; x < min(a, b) likewise (and the non-strict forms)
         more = []
         for a in out:
